@@ -657,7 +657,8 @@ Section Facts.
                 by (rewrite map_app, concat_app; simpl; rewrite app_nil_r, <- app_assoc, Hf; exact Hstream);
               destruct buf' as [|b0 rest0]; unfold dead_end, with_mode, with_ps, mbind, set_cl_wire, set_cl_buf; simpl;
               repeat split; auto; discriminate
-             |split; [|discriminate]; destruct (is_OSError e); [apply (Hclosed (escaped h))|apply Hclosed]]
+             |destruct (is_SSLWantWriteError e); [split; [exact Hd|discriminate]|];
+              split; [|discriminate]; destruct (is_OSError e); [apply (Hclosed (escaped h))|apply Hclosed]]
          | _ =>
              (* FlushClient *)
              destruct (cl_buf (ps h)) as [|b rest] eqn:Hbuf;
@@ -903,13 +904,31 @@ Section Facts.
       + exists []. split; [apply Hnil|split; [constructor|reflexivity]].
       + eexists. split; [reflexivity|split; [apply Htag|]]. rewrite map_snd_tag, app_nil_r. reflexivity.
     - (* ClientWrite *)
-      destruct (cl (ps h)) eqn:Ec; try congruence;
-        (destruct (conn_flush (max_sendbuf_size fl) (cl_buf (ps h)) o) as [|data buf'|e] eqn:Hf;
-         [rewrite <- Ec in *; exact Same
-         |apply conn_flush_sent in Hf; unfold with_ps, mbind, set_cl_wire, set_cl_buf; simpl; (repeat split; auto);
-          [eexists; split; [reflexivity|split; [repeat constructor|simpl; rewrite app_nil_r; exact Hf]]
-          |exists []; split; [apply Hnil|split; [constructor|reflexivity]]]
-         |exfalso; apply conn_flush_raise in Hf as (-> & Hb); subst e; discriminate]).
+      assert (Hc : forall c, c <> ClDead -> cl (ps h) = c ->
+        let h' := match conn_flush (max_sendbuf_size fl) (cl_buf (ps h)) o with
+                  | FsNoop => h
+                  | FsSent data buf' =>
+                      with_ps h (fst ((set_cl_wire (cl_wire (ps h) ++ [(is_tls_cl c, data)]) ;;; set_cl_buf buf') (ps h)))
+                  | FsRaise e => if is_SSLWantWriteError e then h
+                                 else if is_OSError e then with_mode h Closed else escape PS RS h e
+                  end in
+        mode h' = Running /\ pipe h' = pipe h /\ resp h' = resp h /\
+        (exists wc, cl_wire (ps h') = cl_wire (ps h) ++ wc /\
+                    Forall (fun x => fst x = is_tls_cl (cl (ps h))) wc /\
+                    concat (map snd wc) ++ concat (cl_buf (ps h')) = concat (cl_buf (ps h))) /\
+        (exists wu, up_wire (ps h') = up_wire (ps h) ++ wu /\
+                    Forall (fun x => fst x = is_tls_up (up (ps h))) wu /\
+                    concat (map snd wu) ++ concat (up_buf (ps h')) = concat (up_buf (ps h)))).
+      { intros c Hc Ec. cbv zeta.
+        destruct (conn_flush (max_sendbuf_size fl) (cl_buf (ps h)) o) as [|data buf'|e] eqn:Hf.
+        - exact Same.
+        - apply conn_flush_sent in Hf. unfold with_ps, mbind, set_cl_wire, set_cl_buf. simpl. repeat split; auto.
+          + eexists. split; [reflexivity|split; [rewrite Ec; repeat constructor|simpl; rewrite app_nil_r; exact Hf]].
+          + exists []. split; [apply Hnil|split; [constructor|reflexivity]].
+        - apply conn_flush_raise in Hf as (-> & Hb). destruct Hben as [->| ->]; [discriminate|]. simpl. exact Same. }
+      destruct (cl (ps h)) eqn:Ec; try congruence.
+      + apply (Hc ClPlain); [discriminate|reflexivity].
+      + apply (Hc ClTls); [discriminate|reflexivity].
     - (* UpstreamWrite *)
       rewrite Hup.
       destruct (conn_flush (max_sendbuf_size fl) (up_buf (ps h)) o) as [|data buf'|e] eqn:Hf.
